@@ -15,13 +15,15 @@
 (*         chunk's own copy.                                               *)
 (* Mode "worker_reset": eval_one resets the env in the worker (one more    *)
 (*         draw, from the chunk's copy)  -- the mechanism of defect D12.   *)
-(* Mode "parent_draw" : the fresh environment's own hidden game is used,   *)
-(*         nothing is drawn in a worker; the random solver restarts its    *)
-(*         stream per episode from (seed, hidden game).                    *)
+(* Mode "parent_draw" : the hidden game is drawn (reset) in the parent      *)
+(*         right after the env is built; nothing is drawn in a worker.     *)
+(*         The random solver's random.Random is still pickled once per     *)
+(*         chunk (open finding D12b), unless SolverPerEpisode = TRUE,      *)
+(*         which models a solver restarting its stream per episode.        *)
 (***************************************************************************)
 EXTENDS Integers, FiniteSets, Sequences, TLC
 
-CONSTANTS R, Procs, Mode, StepsPerEpisode
+CONSTANTS R, Procs, Mode, StepsPerEpisode, SolverPerEpisode
 VARIABLES P, created, parentRng, solverParent, pickled, chunkRng, chunkSolver, taken, ran, game, solverAt
 vars == <<P, created, parentRng, solverParent, pickled, chunkRng, chunkSolver, taken, ran, game, solverAt>>
 
@@ -36,7 +38,7 @@ Init == /\ P \in Procs /\ created = 0 /\ parentRng = 0 /\ solverParent = 0
         /\ pickled = [c \in 1..R |-> FALSE] /\ chunkRng = [c \in 1..R |-> 0] /\ chunkSolver = [c \in 1..R |-> 0]
         /\ taken = [c \in 1..R |-> 0] /\ ran = {} /\ game = [j \in Reps |-> 0] /\ solverAt = [j \in Reps |-> <<>>]
 
-HiddenOfFresh(j) == 2 * j           \* the second draw made while building env j (parent-side, in order)
+HiddenOfFresh(j) == 3 * j           \* build env j (2 draws), then reset it in the parent (1 draw), in order
 
 \* ---- P = 1: lazily build env j, run it at once ------------------------------------------
 SeqRun == /\ P = 1 /\ created < R
@@ -46,14 +48,16 @@ SeqRun == /\ P = 1 /\ created < R
                 THEN /\ game' = [game EXCEPT ![j] = parentRng + 3] /\ parentRng' = parentRng + 3
                      /\ solverAt' = [solverAt EXCEPT ![j] = <<"stream", solverParent>>]
                      /\ solverParent' = solverParent + StepsPerEpisode
-                ELSE /\ game' = [game EXCEPT ![j] = parentRng + 2] /\ parentRng' = parentRng + 2
-                     /\ solverAt' = [solverAt EXCEPT ![j] = <<"episode-seed", parentRng + 2>>]
-                     /\ UNCHANGED solverParent
+                ELSE /\ game' = [game EXCEPT ![j] = parentRng + 3] /\ parentRng' = parentRng + 3
+                     /\ IF SolverPerEpisode
+                        THEN solverAt' = [solverAt EXCEPT ![j] = <<"episode", j>>] /\ UNCHANGED solverParent
+                        ELSE /\ solverAt' = [solverAt EXCEPT ![j] = <<"stream", solverParent>>]
+                             /\ solverParent' = solverParent + StepsPerEpisode
              /\ ran' = ran \cup {j}
           /\ UNCHANGED <<P, pickled, chunkRng, chunkSolver, taken>>
 
 \* ---- P > 1 ------------------------------------------------------------------------------
-Create == /\ P > 1 /\ created < R /\ created' = created + 1 /\ parentRng' = parentRng + 2
+Create == /\ P > 1 /\ created < R /\ created' = created + 1 /\ parentRng' = parentRng + (IF Mode = "worker_reset" THEN 2 ELSE 3)
           /\ UNCHANGED <<P, solverParent, pickled, chunkRng, chunkSolver, taken, ran, game, solverAt>>
 Pickle(c) == /\ P > 1 /\ created = R /\ c \in 1..NChunks /\ ~pickled[c] /\ \A d \in 1..(c - 1) : pickled[d]
              /\ pickled' = [pickled EXCEPT ![c] = TRUE]
@@ -70,8 +74,11 @@ RunRep(w, j) == /\ P > 1 /\ j \notin ran /\ taken[ChunkOf(j)] = w /\ \A i \in Re
                         /\ solverAt' = [solverAt EXCEPT ![j] = <<"stream", chunkSolver[c]>>]
                         /\ chunkSolver' = [chunkSolver EXCEPT ![c] = @ + StepsPerEpisode]
                    ELSE /\ game' = [game EXCEPT ![j] = HiddenOfFresh(j)]
-                        /\ solverAt' = [solverAt EXCEPT ![j] = <<"episode-seed", HiddenOfFresh(j)>>]
-                        /\ UNCHANGED <<chunkRng, chunkSolver>>
+                        /\ IF SolverPerEpisode
+                           THEN solverAt' = [solverAt EXCEPT ![j] = <<"episode", j>>] /\ UNCHANGED chunkSolver
+                           ELSE /\ solverAt' = [solverAt EXCEPT ![j] = <<"stream", chunkSolver[c]>>]
+                                /\ chunkSolver' = [chunkSolver EXCEPT ![c] = @ + StepsPerEpisode]
+                        /\ UNCHANGED chunkRng
                 /\ ran' = ran \cup {j}
                 /\ UNCHANGED <<P, created, parentRng, solverParent, pickled, taken>>
 
@@ -83,8 +90,10 @@ Spec == Init /\ [][Next]_vars
 DistinctDraws == \A i, j \in ran : i # j => game[i] # game[j]
 \* for a fixed seed the hidden game and the solver's random stream of repetition j do not depend on the number of workers:
 \* they equal what the sequential run (P = 1) gives
-SeqGame(j)   == IF Mode = "worker_reset" THEN 3 * j ELSE 2 * j
-SeqSolver(j) == IF Mode = "worker_reset" THEN <<"stream", (j - 1) * StepsPerEpisode>> ELSE <<"episode-seed", 2 * j>>
-SameForAllP  == \A j \in ran : game[j] = SeqGame(j) /\ solverAt[j] = SeqSolver(j)
+SeqGame(j)   == 3 * j
+SeqSolver(j) == IF SolverPerEpisode /\ Mode # "worker_reset" THEN <<"episode", j>> ELSE <<"stream", (j - 1) * StepsPerEpisode>>
+SameGamesForAllP  == \A j \in ran : game[j] = SeqGame(j)
+SolverStreamSameForAllP == \A j \in ran : solverAt[j] = SeqSolver(j)
+SameForAllP  == SameGamesForAllP /\ SolverStreamSameForAllP
 AllRun       == <>(ran = Reps)
 =============================================================================
